@@ -26,6 +26,8 @@ pub const SPECIALS: &[f32] = &[
     f32::INFINITY, f32::NEG_INFINITY, f32::NAN, f32::MAX, f32::MIN, f32::MIN_POSITIVE,
     1.0e-40, -1.0e-40, 1.0e-45, 1.5, 2.5, -2.5, 0.25, 1.0e10, -1.0e10, 1.0e30, 1.0e-30,
     std::f32::consts::PI, std::f32::consts::FRAC_PI_2, -std::f32::consts::PI, 16777216.0, 8388608.5,
+    // rounding edges: just below a tie (x + 0.5 rounds up), odd integers where ulp = 1, ties at the last place with a fraction
+    0.49999997, -0.49999997, 8388609.0, -8388609.0, 16777215.0, 8388607.5, -8388607.5, 4194304.5, 0.99999994, 1.0000001, -1.5, 3.5,
 ];
 
 /// A float value: special with probability `p_special`, else mixed magnitudes.
